@@ -277,11 +277,58 @@ def accept(rng, prog, direct, long_rate):
     return steps <= F.SHORT
 
 
+def gen_exit(rng):
+    """two nested loops (FOR or WHILE each), the inner one left early by a jump, and the loop closers /
+    openers visited again after the loops are done: what matters is which stack records are dropped"""
+    outer_for = rng.random() < 0.6
+    inner_for = rng.random() < 0.6
+    n, m = rng.choice([1, 2, 2, 3]), rng.choice([2, 3, 3, 4])
+    k = rng.randrange(1, m + 1)
+    l10 = []
+    if outer_for:
+        l10.append(['F', 4, 1, n, 1])
+    else:
+        l10 += [['=', 0, 0], ['W', ['<', V(0), n]]]
+    l20 = []
+    if inner_for:
+        l20.append(['F', 5, 1, m, 1])
+        test = ['=', V(5), k]
+    else:
+        l20 += [['=', 1, 0], ['W', ['<', V(1), m]], ['=', 1, ['+', V(1), 1]]]
+        test = ['=', V(1), k]
+    if rng.random() < 0.5:
+        l20.append(['P', V(5) if inner_for else V(1)])
+    exit_to = rng.choice([40, 40, 40, 50, 60, 30])
+    l20.append(['IF', test, exit_to])
+    l30 = [['N', rng.choice([[5], []])] if inner_for else ['D']]
+    l40 = [['P', V(4) if outer_for else V(0)]]
+    if not outer_for:
+        l40.append(['=', 0, ['+', V(0), 1]])
+    if outer_for and inner_for and rng.random() < 0.2:
+        l30 = [['N', [5, 4]]]
+        l40.append(['P', 7])
+    else:
+        l40.append(['N', rng.choice([[4], []])] if outer_for else ['D'])
+    back = rng.choice([40, 40, 30, 20, 10])
+    l50 = [['=', 2, ['+', V(2), 1]], ['IF', ['<', V(2), rng.choice([2, 3])], back]]
+    l60 = [['P', 99]]
+    prog = []
+    for num, sl in ((10, l10), (20, l20), (30, l30), (40, l40), (50, l50), (60, l60)):
+        prog.append(['L', num])
+        prog += sl
+    return prog
+
+
 def gen_flat(rng, long_rate=0.02):
     for _ in range(60):
-        if rng.random() < 0.7:
+        r = rng.random()
+        if r < 0.6:
             prog = gen_struct(rng)['prog']
             for _ in range(rng.choice([1, 1, 2, 3])):
+                prog = mutate(rng, prog)
+        elif r < 0.8:
+            prog = gen_exit(rng)
+            if rng.random() < 0.3:
                 prog = mutate(rng, prog)
         else:
             prog = gen_soup(rng)
